@@ -317,6 +317,8 @@ class MethodTr:
             return self.const(e)
         if isinstance(e, ast.Name):
             v = self.lookup(e.id, env)
+            if has_ref(v.ty) and v.sep != env.sep:
+                raise Unsupported(f"`{e.id}` holds references into the heap array, which was restructured since")
             return v.lean, v.ty
         if isinstance(e, ast.Attribute):
             if is_self_attr(e) and not self.m.pv_mode:
